@@ -14,7 +14,7 @@ import Mfi.Driver.TransferD
 import Mfi.Driver.IxD
 open Mfi.Driver
 
-def handlers : List (String → List Int → Option String) := [fxOp, panicOp, irOp, igOp, bankOp, tokOp, gateOp, authOp, adminOp, acctOp, txOp, riskOp, liqOp, xferOp, ixOp, liqIxOp, bkrIxOp, closeBankOp]
+def handlers : List (String → List Int → Option String) := [fxOp, panicOp, irOp, igOp, bankOp, tokOp, gateOp, authOp, adminOp, acctOp, txOp, riskOp, liqOp, xferOp, ixOp, liqIxOp, bkrIxOp, closeBankOp, venueOp]
 
 def stepLine (line : String) : String :=
   match line.trimAscii.toString.splitOn " " with
